@@ -1,4 +1,4 @@
 SPECIFICATION Spec
-CONSTANTS MaxLines = 3
+CONSTANTS MaxLines = 6
 INVARIANTS NoSpoof Truth ProbeXor HeadersKept HostRule
 CHECK_DEADLOCK FALSE
